@@ -14,6 +14,7 @@ CLAIMS = {
  "C03": ("model_checking", "Every reachable state within the bounds: Values() complete, duplicate-free, causal, sorted by the configured comparator (comparator verdicts are solver terms when clocks/hashes are symbolic) and independent of arrival order.", "§5 C03"),
  "C04": ("model_checking", "Every append in every bounded history, with symbolic initial clocks and a choice of pointer counts: predecessors = heads, clock id, strict clock dominance over all entries (solver, 64-bit), single head, reference discipline.", "§5 C04"),
  "C05": ("model_checking", "Deep snapshot of every log before each step of every bounded history, compared field-wise after it.", "§5 C05"),
+ "C06": ("model_checking", "Join and Append executed symbolically with the repository's real signing/verification path: a source chain with an invalid entry of symbolic kind and position against a destination holding a symbolic prefix; verdict compared with a reference candidate computation, all-or-nothing checked on state and on future behaviour (twin log).", "§5 C06"),
  "C07": ("model_checking", "The repository's signing path (CreateEntryWithIO, ToHashable, toBuffer, OrbitDB provider, keystore) is executed symbolically on an entry with symbolic payload bytes, clock and links; for each of 17 single-field modifications the solver shows that the signing documents differ (verification fails) or returns the colliding values.", "§5 C07"),
  "C09": ("model_checking", "All four loaders against the stored replica of every bounded history; in the explore runs every interleaving of the fetcher's worker goroutines (= every block arrival order) is enumerated by the engine's scheduler while data stays symbolic; result compared with the original log.", "§5 C09"),
  "C10": ("model_checking", "As C09 with every limit n in [0,size+1]; the expected set is computed by a reference oracle that does not depend on the schedule, so equality on every explored schedule is the required independence from concurrency and arrival order.", "§5 C10"),
@@ -22,6 +23,7 @@ CLAIMS = {
  "C14": ("model_checking", "A.Join(B) against concurrent appends / merges on B (and the symmetric cross-merge) from every bounded pre-state, every interleaving at lock operations within the preemption bound, RWMutex with writer preference; deadlock = no enabled goroutine; result compared with the source's states.", "§5 C14"),
  "C15": ("model_checking", "Iterator over the replica of every bounded history with every upper/lower bound combination and a symbolic amount, compared with a reference range computation; panics and a non-closed channel are violations.", "§5 C15"),
  "C16": ("model_checking", "Symbolic size bound n in [0,total+2] against the twin that merges unbounded, over the replicas of every bounded history and three orderings; panics are implicit violations.", "§5 C16"),
+ "C20": ("model_checking", "Keystore (LRU cache + datastore, interpreted from source) under every bounded sequence of create/get/has over two instances sharing a datastore, compared with a model map; identity creation executed symbolically with Dolev-Yao signatures: stability and the three signature relations are solver obligations.", "§5 C20"),
  "C19": ("model_checking", "Order laws as SMT obligations over all 2^64 clock times, symbolic clock-id bytes and symbolic hash ranks; sort.SliceStable interpreted from source for all input permutations of 3 entries.", "§5 C19"),
 }
 
